@@ -276,6 +276,13 @@ func run(tapeJSON json.RawMessage, res *core.Result) {
 		switch kind {
 		case "request-flood":
 			engine.Violate(r, "referral.unbounded", map[string]string{"detail": detail, "config": fmt.Sprintf("chain=%d cycle=%v", tp.Chain, tp.Cycle)})
+		case "request-budget":
+			// a short-lived renewable ticket is renewed about once per remaining-life for as long as its
+			// renew-till allows (a 2-second cross-realm TGT: once a second for days).  That is what
+			// renewal means, not a defect, but a run that sleeps for days next to it costs millions of
+			// simulated exchanges: the run ends here, like one that fills the task table
+			r.Stats["truncated_request_budget"] = 1
+			r.Class = "truncated"
 		case "task-table-full":
 			// more library goroutines than the scheduler has slots (a run with hundreds of re-logins):
 			// the run ends here; what was judged online stands, the rest is not judged
@@ -285,7 +292,12 @@ func run(tapeJSON json.RawMessage, res *core.Result) {
 			r.Verdict, r.Harness = "harness-error", kind+": "+detail
 		}
 	}
+	reqsInRun := 0
 	net.Mangle = func(proto, addr string, req, reply []byte) []byte {
+		reqsInRun++
+		if reqsInRun > 15000 {
+			simrt.Abort("request-budget", fmt.Sprintf("%d KDC requests within one run", reqsInRun))
+		}
 		if simrt.Cur().ID == 1 {
 			reqsInOp++
 			if reqsInOp > 300 {
